@@ -38,7 +38,8 @@ pub fn gen_goal(ch: &mut Chooser, ws: &WsCase) -> Goal {
     match ch.weighted(&[6, 1, 2, 2]) {
         0 => Goal::All,
         1 => Goal::Next,
-        2 => Goal::Count(ch.range(1, n + 1)),
+        // counts beyond the end of the series mean "all the rest", however large
+        2 => Goal::Count(if ch.chance(1, 6) { *ch.pick(&[1000usize, 4294967296, 9223372036854775807, 18446744073709551615]) } else { ch.range(1, n + 1) }),
         _ => Goal::Name(ws.metas[ch.below(n)].name.clone()),
     }
 }
